@@ -580,45 +580,27 @@ class Spectrum(object):
 
         if self.sides == 'onesided':
             logging.debug('Current sides is onesided')
-            if sides == 'twosided':
-                logging.debug('--->Converting to twosided')
-                # here we divide everything by 2 to get the twosided version
-                #N = self.NFFT
-                newpsd = numpy.concatenate((self.psd[0:-1]/2., list(reversed(self.psd[0:-1]/2.))))
-                # so we need to multiply by 2 the 0 and FS/2 frequencies
-                newpsd[-1] = self.psd[-1]
-                newpsd[0] *= 2.
-            elif sides == 'centerdc':
-                # FIXME. this assumes data is even so PSD is stored as
-                # P0 X1 X2 X3 P1
-                logging.debug('--->Converting to centerdc')
-                P0 = self.psd[0]
-                P1 = self.psd[-1]
-                newpsd = numpy.concatenate((self.psd[-1:0:-1]/2., self.psd[0:-1]/2.))
-                # so we need to multiply by 2 the 0 and F2/2 frequencies
-                #newpsd[-1] = P0 / 2
-                newpsd[0] = P1
+            # an odd NFFT has no Nyquist term: (NFFT+1)/2 one-sided values
+            odd = self.NFFT % 2 == 1 and len(self.psd) == (self.NFFT + 1) // 2
+            if odd:
+                newpsd = numpy.concatenate((self.psd, self.psd[:0:-1])) / 2.
+            else:
+                newpsd = numpy.concatenate((self.psd, self.psd[-2:0:-1])) / 2.
+                newpsd[len(self.psd) - 1] *= 2.
+            newpsd[0] *= 2.
+            if sides == 'centerdc':
+                newpsd = stools.twosided_2_centerdc(newpsd)
         elif self.sides == 'twosided':
             logging.debug('Current sides is twosided')
             if sides == 'onesided':
-                # we assume that data is stored as X0,X1,X2,X3,XN
-                # that is original data is even.
-                logging.debug('Converting to onesided assuming ori data is even')
-                midN = (len(self.psd)-2) / 2
-                newpsd = numpy.array(self.psd[0:int(midN)+2]*2)
-                newpsd[0] /= 2
-                newpsd[-1] = self.psd[-1]
+                newpsd = stools.twosided_2_onesided(self.psd)
             elif sides == 'centerdc':
                 newpsd = stools.twosided_2_centerdc(self.psd)
-        elif self.sides == 'centerdc': # same as twosided to onesided
+        elif self.sides == 'centerdc':
             logging.debug('Current sides is centerdc')
+            newpsd = stools.centerdc_2_twosided(self.psd)
             if sides == 'onesided':
-                logging.debug('--->Converting to onesided')
-                midN = int(len(self.psd) / 2)
-                P1 = self.psd[0]
-                newpsd = numpy.append(self.psd[midN:]*2, P1)
-            elif sides == 'twosided':
-                newpsd = stools.centerdc_2_twosided(self.psd)
+                newpsd = stools.twosided_2_onesided(newpsd)
         else:
             raise ValueError("sides must be set to 'onesided', 'twosided' or 'centerdc'")
 
